@@ -81,10 +81,10 @@ Definition tb_step (bin : bool) (s : tb_st) (cur : suffix) : res tb_st :=
 Definition tail_complete (bin : bool) (sufs : list suffix) : res (tailvec * list (N * N)) :=
   let sorted := SufSort.sort sufs in
   let init := mkTb [0] (if bin then [false] else []) 1 [] 0 [] in
-  do s <- fold_left (fun acc cur => do st <- acc; tb_step bin st cur) (rev sorted) (Ok init);
-  do tb <- bvb_of_bits (rev (tb_terms s));
+  do s <- fold_left (fun acc cur => do st <- acc; tb_step bin st cur) (frev sorted) (Ok init);
+  do tb <- bvb_of_bits (frev (tb_terms s));
   do terms <- bv_build tb false false;
-  Ok (mkTail (of_list (rev (tb_chars s))) terms, rev (tb_assign s)).
+  Ok (mkTail (of_list (frev (tb_chars s))) terms, frev (tb_assign s)).
 
 (* set_suffix throws on an empty string *)
 Definition tail_set_suffix (sufs : list suffix) (s : key) (npos : N) : res (list suffix) :=
